@@ -124,6 +124,9 @@ def _pack(dense, fmt, dup, shape=None):
         mat = sps.coo_matrix((vals, (rows, cols)), shape=shape)
     else:
         mat = sps.coo_matrix((v, (r, c)), shape=shape)
+    if fmt in ("cooa", "csra", "csca"):
+        # scipy's sparse *array* classes (element-wise `*`, numpy-like semantics) instead of the sparse matrix classes
+        return {"cooa": sps.coo_array, "csra": sps.csr_array, "csca": sps.csc_array}[fmt](mat)
     if fmt == "coo":
         return mat
     if fmt == "csr":
@@ -749,6 +752,15 @@ def gen_deg(rng, variant=None):
         n = s.n
         s = Spec(s.Q, s.q, np.zeros((1, n)), [0.3], s.var_lb, s.var_ub, [0.3], [0.3], x0=s.x0, meta=dict(s.meta))
         s.meta.update(family="DEG", variant="zero-row-eq")
+    elif variant == 7:  # the last variable(s) enter linearly: trailing columns of the Hessian are structurally empty (only on request)
+        n = int(rng.integers(2, 6))
+        k = int(rng.integers(1, n))
+        d = np.concatenate([rng.uniform(0.5, 3.0, size=n - k), np.zeros(k)])
+        q = rng.normal(size=n)
+        lb = -rng.uniform(0.5, 2.0, size=n)
+        ub = rng.uniform(0.5, 2.0, size=n)
+        s = Spec(np.diag(d), q, np.zeros((0, n)), [], lb, ub, [], [], x0=np.zeros(n),
+                 meta={"family": "DEG", "variant": "linear-variables", "xs": np.zeros(n)})
     elif variant == 4:  # n = 1
         s = gen_qp(rng, n=1, m=0)
         s.meta.update(family="DEG", variant="n=1")
